@@ -22,4 +22,19 @@ CHECKS = {
                     "plus whole backtests with Require / Or / Not / RunIfOutOfBounds compared through per-run temp traces.",
             "note": COMMON_NOTE + " RunIfOutOfBounds and the per-run temp reset are decided by correspondence, not yet by theorems."},
 }
+CHECKS["C05"] = {
+    "text": "Theorems (any commission function unless stated): a zero amount does nothing; a missing or zero price is refused with an error; "
+            "allocating exactly minus the value closes the position for every commission function and spread; fractional positions without costs: "
+            "cost equals the amount exactly (either sign, any prior position); whole units without costs buying into a flat/long position: the quantity is a "
+            "whole number, within the budget, and one more unit would not fit (the sizing search is followed through its break exit). The total / with-costs "
+            "statement is false of the code (known findings K1, K2, K12 with witnesses). Correspondence: product grid of 9600 allocations + random dyadic points, "
+            "bit-exact incl. which error is raised; budget / maximality / integrality / close-out oracle on every recorded allocation.",
+    "note": COMMON_NOTE + " With non-zero costs and for short-side integer sizing only the correspondence and the oracle decide (no theorem yet)."}
+CHECKS["C07"] = {
+    "text": "Theorems: one executed trade of quantity q (market or custom price) adds q x price x multiplier plus the half-spread (or custom-price difference) to the "
+            "security's outlay accumulator, moves the position by q, and asks the parent to book -(outlay + fee) on capital and +fee on its fee accumulator with "
+            "fee = commission(q, price x multiplier), once; the parent books exactly that and its net flows are untouched. Correspondence: engine histories weighted "
+            "to spreads/commissions/custom prices; per-trade booking oracle on before/after states; per-node per-date ledger oracle on whole backtests "
+            "(cash change = flows - own securities' outlays - fees - capital passed to sub-strategies + swept carry).",
+    "note": COMMON_NOTE + " The day-level ledger identity is decided by the oracle on implementation histories plus correspondence; it is not yet a theorem."}
 NOT_APPLICABLE = {}
